@@ -5,7 +5,7 @@ for over range/array/enumerate/zip/list-of-arrays, while, continue/break/return/
 functions, calls to contracted callees, ghost state with anchored ghost updates, proved intermediate lemmas,
 loop invariants with unfold hints, infeasible-path pruning.
 """
-import ast, hashlib, itertools, time, re
+import ast, hashlib, itertools, time, re, os
 from dataclasses import dataclass, field
 import z3
 
@@ -32,7 +32,9 @@ def f_cmp(op, a, b): return z3.And(F.is_Fin(a), F.is_Fin(b), op(F.val(a), F.val(
 def sort_of(kind): return {"int": I, "float": F, "bool": B, "opaque": V}[kind]
 
 
+PRUNE_RLIMIT = int(os.environ.get("PYVC_PRUNE_RLIMIT", "100000"))
 class Unsupported(Exception): pass
+class ElemTypeMismatch(Unsupported): pass        # an array the contract types by the input's element type was allocated with another element type: the analysis stops, the failed obligation is kept
 class Stale(Exception): pass
 
 
@@ -187,7 +189,9 @@ class Engine:
 
     def feasible(self, st):
         if not self.prune: return True
-        t = time.time(); s = z3.Solver(); s.set(timeout=500); s.add(*st.pc); s.add(*self.defs); r = s.check()
+        # a resource limit instead of a wall-clock limit: which paths are pruned (hence the set and the names of the obligations) must not depend on the machine's load
+        t = time.time(); s = z3.Solver(); s.set("rlimit", PRUNE_RLIMIT); s.set(timeout=20000); s.add(*st.pc); s.add(*self.defs); r = s.check()
+        self.stats["prune_max_s"] = max(self.stats.get("prune_max_s", 0), time.time() - t)
         self.stats["solver_prune_s"] += time.time() - t
         if r == z3.unsat: self.stats["paths_pruned"] += 1; return False
         return True
@@ -734,6 +738,14 @@ class Engine:
         val = self.ev(st, s.value)
         if val.kind == "arr" and val.ref is not None and st.heap.meta[val.ref][3] in ("new", "zl", "copy") and isinstance(s.targets[0], ast.Name):
             e_, d_, g_, _ = st.heap.meta[val.ref]; st.heap.meta[val.ref] = (e_, d_, g_, s.targets[0].id)
+            want = self.contract.get("array_elem", {}).get(s.targets[0].id)
+            if want is not None and not self.in_spec:
+                # contract clause array_elem: {local array: parameter}: the local buffer holds elements of the parameter's element type (numba: np.full(shape, fill) takes the
+                # fill's type, np.empty / np.zeros without dtype are float64 - storing the input's values there converts them implicitly). A named obligation, always emitted.
+                pv = st.env[want]; pk = pv.elem if pv.kind in ("arr", "chunks") else pv.kind
+                ok = e_ == pk
+                self.emit(st, "alloc_elem", z3.BoolVal(ok), s.lineno, f"[{s.targets[0].id}]")
+                if not ok: raise ElemTypeMismatch(f"{s.targets[0].id} is allocated as {d_} but holds elements of `{want}` ({pk})")
         for t in s.targets: self.assign(st, t, val, s.lineno)
         return [("normal", st, None)]
 
@@ -991,7 +1003,10 @@ class Engine:
         for r in self.contract.get("requires", []): st.pc.append(self.spec(st, r))
         s = z3.Solver(); s.set(timeout=5000); s.add(*st.pc)
         self.pre_sat = str(s.check())
-        for kind, o, val in self.run_block(st, self.fn.body):
+        try: outcomes = list(self.run_block(st, self.fn.body))
+        except ElemTypeMismatch:
+            return [o for o in self.obls if o.kind == "alloc_elem"]
+        for kind, o, val in outcomes:
             if kind in ("normal", "return"):
                 rv = val if kind == "return" else Val("none"); extra = {"result": rv}
                 if rv.kind == "tuple":
